@@ -58,13 +58,9 @@ type registration struct {
 func registrationOf(client string, rd regDef) registration {
 	switch client {
 	case clA:
-		return registration{exact: aExact, globs: rd.aGlobs, optedIn: rd.aOpt, known: true, badGlobs: rd.aOpt && rd.aHasBadGlobs}
+		return registration{exact: rd.exactA(), globs: rd.aGlobs, optedIn: rd.aOpt, known: true, badGlobs: rd.aOpt && rd.aHasBadGlobs}
 	case clB:
-		var g []string
-		if rd.aGlobs != nil {
-			g = bGlobs
-		}
-		return registration{exact: bExact, globs: g, optedIn: rd.bOpt, known: true}
+		return registration{exact: rd.exactB(), globs: rd.globsB(), optedIn: rd.bOpt, known: true}
 	}
 	return registration{}
 }
